@@ -49,6 +49,19 @@ def decide(alts, label=""):
     if P is None:
         raise SymEscape(f"control flow depends on a symbolic value outside an exploration ({label})")
     i = len(P.decisions)
+    known = None
+    if label in _EXCLUSIVE:
+        # alternatives of these decisions are mutually exclusive: one that is already (syntactically) part of
+        # the path condition is the only feasible one -> no solver query, no duplicate in the path condition
+        keys = _pc_keys(P)
+        for j, (f, _) in enumerate(alts):
+            if f is not True and f is not False and _fkey(f) in keys:
+                known = j
+                break
+    if known is not None:
+        choice = known
+        P.decisions.append(choice)
+        return alts[choice][1]
     if i < len(P.prefix):
         choice = P.prefix[i]
     else:
@@ -73,6 +86,40 @@ def decide(alts, label=""):
     if f is not True:
         P.pc.append(f)
     return alts[choice][1]
+
+
+_EXCLUSIVE = ("bool", "threshold", "truth")
+
+
+def _fkey(f):
+    """hashable syntactic key of a formula"""
+    if isinstance(f, Cons):
+        return ("C", f.op, f.p.key())
+    if isinstance(f, bool):
+        return f
+    if f[0] in ("and", "or"):
+        return (f[0], tuple(_fkey(x) for x in f[1]))
+    if f[0] == "not":
+        return ("not", _fkey(f[1]))
+    if f[0] == "cneq":
+        return ("cneq", f[1].key(), f[2].key())
+    return ("id", id(f))
+
+
+def _pc_keys(P):
+    """keys of the path condition; syntactic duplicates are dropped from P.pc on the way"""
+    keys = P.__dict__.setdefault("_keys", set())
+    nk = P.__dict__.get("_nk", 0)
+    if nk < len(P.pc):
+        new = []
+        for f in P.pc[nk:]:
+            k = _fkey(f)
+            if k not in keys:
+                keys.add(k)
+                new.append(f)
+        P.pc[nk:] = new
+        P._nk = len(P.pc)
+    return keys
 
 
 def assume(f, why=""):
@@ -161,7 +208,18 @@ def cons_truth(p, op):
         if margin is not None and margin <= TINY_MAX:
             p0 = Poly(p0t)
             if not p0.t:
-                return SymBool(Cons(p, op)) if p.const_value() is None else _const_truth(p.const_value().real, op)
+                if p.const_value() is not None:
+                    return _const_truth(p.const_value().real, op)
+                # p consists of tiny literals only: its value is known exactly
+                val = F(0)
+                for (k, vs), c in p.t.items():
+                    if k != 0 or not all(ctx.kind[v] == "real" and ctx.info[v].get("tiny") and e > 0 for v, e in vs):
+                        return SymBool(Cons(p, op))
+                    m = c
+                    for v, e in vs:
+                        m *= F(ctx.info[v]["value"]) ** int(e)
+                    val += m
+                return _const_truth(val, op)
             cv0 = p0.const_value()
             if cv0 is not None:
                 if abs(cv0.real) > float(margin):
@@ -193,6 +251,13 @@ def compare(a, b, op):
         if r is not None:
             if r < 0:
                 return _const_truth(1, op)        # |x| - r > 0 always
+            if r == 0 and a._abs_of.const_value() is None:
+                # |x| op 0 is decided on x itself (no squares): |x| > 0 <=> x != 0, |x| <= 0 <=> x == 0
+                if op in (">=", "<"):
+                    return op == ">="
+                re_, im_ = a._abs_of.real(), a._abs_of.imag()
+                z = Cons(re_, "==") if not im_.t else (Cons(im_, "==") if not re_.t else smt.f_and(Cons(re_, "=="), Cons(im_, "==")))
+                return SymBool(z) if op in ("<=", "==") else SymBool(smt.f_not(z) if not isinstance(z, Cons) else z.negate())
             sq = a._abs_of.mul(a._abs_of.conj())
             num.ctx().__dict__.setdefault("nonneg", set()).add(sq.key())
             return cons_truth(sq.sub(b.p.mul(b.p)), op)
